@@ -219,6 +219,11 @@ def is_type_compatible(
         memo = TypeCheckMemo(globals={}, locals={})
     incoming_type = _resolve_type(incoming_type, memo)
     required_type = _resolve_type(required_type, memo)
+    # The literal `None` (e.g. the argument of `list[None]`) denotes `NoneType`
+    if incoming_type is None:
+        incoming_type = type(None)
+    if required_type is None:
+        required_type = type(None)
 
     if isinstance(incoming_type, TypeVar):
         # TODO: the incoming type needs to be resolved to a concrete type
